@@ -1,14 +1,206 @@
-(** C02 — Select is exact and inverse to rank (placeholder until Proofs/SelectProofs.v lands). *)
+(** C02 — Select is exact and inverse to rank (Select32, Select32R64).
+    Only the property theorems (each closed by [exact]), their axiom audit and
+    non-vacuity examples.  Vocabulary (Spec/SelectSpec.v): [all_ones ws] is the ascending
+    list of the positions of the 1-bits of the bitmap, [spec_Select ws i] =
+    (its [i]-th element, its [i+1]-th element or [64 * len] when there is none),
+    [spec_IndexSelect32 ws] = every 32nd element.  Positions are unbounded [Z] in the
+    model; Go's int32 agrees while [64 * len(words) < 2^31] (DESIGN section 3).  No
+    theorem below bounds the number of words, the density or [i]. *)
 From Coq Require Import ZArith List Bool.
-From Low Require Import Lib.Bits Lib.BitSeq Model.Rank Model.Select Spec.RankSpec Spec.SelectSpec.
+From Low Require Import Lib.Bits Lib.BitSeq Model.Rank Model.Select Spec.RankSpec Spec.SelectSpec
+  Proofs.RankProofs Proofs.SelectProofs Proofs.SelectMain.
 Import ListNotations.
 Open Scope Z_scope.
 
-Lemma IndexSelect32R64_pair ws :
-  IndexSelect32R64 ws = match IndexSelect32 ws with Some s => Some (s, IndexRank64 ws true) | None => None end.
-Proof. reflexivity. Qed.
+(** the byte table, as [initSelectLookup] builds it: entry [8b+j] = position of the [j]-th
+    1-bit of byte [b], 8 when there is none (all 2048 entries) *)
+Theorem C02_select8Lookup : forall b j : nat, (b < 256)%nat -> (j < 8)%nat ->
+  nth_error select8Lookup (8 * b + j) = Some (nth j (ones (bits 8 (Z.of_nat b))) 8).
+Proof. exact select8Lookup_spec. Qed.
+Print Assumptions C02_select8Lookup.
 
-Theorem C02_IndexSelect32R64_partial : forall ws,
-  IndexSelect32R64 ws = match IndexSelect32 ws with Some s => Some (s, IndexRank64 ws true) | None => None end.
-Proof. exact IndexSelect32R64_pair. Qed.
-Print Assumptions C02_IndexSelect32R64_partial.
+(** the in-word search (32/16/8 halving + both table-index expressions) returns the
+    [k]-th 1-bit of ANY word *)
+Theorem C02_select_in_word : forall w (k : nat) v, 0 <= w ->
+  nth_error (ones (bits 64 w)) k = Some v -> select_in_word w (Z.of_nat k) = Some v.
+Proof. exact select_in_word_spec. Qed.
+Print Assumptions C02_select_in_word.
+
+(** IndexSelect32 lists the position of every 32nd 1-bit: ceil(n/32) entries *)
+Theorem C02_IndexSelect32 : forall ws,
+  IndexSelect32 ws = Some (spec_IndexSelect32 ws).
+Proof. exact IndexSelect32_exact. Qed.
+Print Assumptions C02_IndexSelect32.
+
+(** IndexSelect32R64 = (that select index, IndexRank64(words, true) = C01's rank index
+    with the trailing grand total) *)
+Theorem C02_IndexSelect32R64 : forall ws, words_ok ws ->
+  IndexSelect32R64 ws = Some (spec_IndexSelect32 ws, spec_IndexRank64 ws true).
+Proof. exact IndexSelect32R64_exact. Qed.
+Print Assumptions C02_IndexSelect32R64.
+
+Theorem C02_IndexSelect32R64_components : forall ws,
+  IndexSelect32R64 ws =
+  match IndexSelect32 ws with Some s => Some (s, IndexRank64 ws true) | None => None end.
+Proof. exact (fun ws => eq_refl). Qed.
+Print Assumptions C02_IndexSelect32R64_components.
+
+(** Select32 with the index IndexSelect32 built, for every valid [i] (including the last
+    1-bit, where the second component is [64 * len]) *)
+Theorem C02_Select32 : forall ws sidx i, words_ok ws -> IndexSelect32 ws = Some sidx ->
+  0 <= i < zlen (all_ones ws) ->
+  Select32 ws sidx i = Some (spec_Select ws i).
+Proof. exact Select32_indexed. Qed.
+Print Assumptions C02_Select32.
+
+(** Select32R64 with the two indexes IndexSelect32R64 built *)
+Theorem C02_Select32R64 : forall ws sidx ridx i, words_ok ws ->
+  IndexSelect32R64 ws = Some (sidx, ridx) -> 0 <= i < zlen (all_ones ws) ->
+  Select32R64 ws sidx ridx i = Some (spec_Select ws i).
+Proof. exact Select32R64_indexed. Qed.
+Print Assumptions C02_Select32R64.
+
+(** hence: the selected position is inside the bitmap, exactly [i] 1-bits precede it
+    (rank (select i) = i) and the selected bit is 1 *)
+Theorem C02_rank_select : forall ws i, 0 <= i < zlen (all_ones ws) ->
+  let a := fst (spec_Select ws i) in
+  0 <= a < 64 * zlen ws /\ rank1z (flat ws) a = i /\ bitz (flat ws) a = true.
+Proof. exact spec_Select_fst. Qed.
+Print Assumptions C02_rank_select.
+
+(** the second component is strictly after the first, at most [64 * len], the rank there is
+    [i + 1] (so no 1-bit lies strictly between them), and it is a 1-bit unless it is [64 * len] *)
+Theorem C02_next_one : forall ws i, 0 <= i < zlen (all_ones ws) ->
+  let a := fst (spec_Select ws i) in
+  let b := snd (spec_Select ws i) in
+  a < b <= 64 * zlen ws /\ rank1z (flat ws) b = i + 1 /\
+  (b < 64 * zlen ws -> bitz (flat ws) b = true).
+Proof. exact spec_Select_snd. Qed.
+Print Assumptions C02_next_one.
+
+(** and conversely the position with bit 1 and rank [i] is unique: [spec_Select] is not
+    "some list function", it is the property's "position of the i-th 1-bit" *)
+Theorem C02_select_unique : forall ws i a, 0 <= a -> bitz (flat ws) a = true ->
+  rank1z (flat ws) a = i ->
+  0 <= i < zlen (all_ones ws) /\ fst (spec_Select ws i) = a.
+Proof. exact spec_Select_unique. Qed.
+Print Assumptions C02_select_unique.
+
+(** the library's own rank (C01's model) applied to the library's select returns [i] and bit 1 *)
+Theorem C02_Rank64_of_Select32 : forall ws tr sidx i a b, words_ok ws ->
+  IndexSelect32 ws = Some sidx -> 0 <= i < zlen (all_ones ws) ->
+  Select32 ws sidx i = Some (a, b) ->
+  Rank64 ws (IndexRank64 ws tr) a = Some (i, 1).
+Proof. exact Rank64_Select32. Qed.
+Print Assumptions C02_Rank64_of_Select32.
+
+Theorem C02_Rank64_of_Select32R64 : forall ws tr sidx ridx i a b, words_ok ws ->
+  IndexSelect32R64 ws = Some (sidx, ridx) -> 0 <= i < zlen (all_ones ws) ->
+  Select32R64 ws sidx ridx i = Some (a, b) ->
+  Rank64 ws (IndexRank64 ws tr) a = Some (i, 1).
+Proof. exact Rank64_Select32R64. Qed.
+Print Assumptions C02_Rank64_of_Select32R64.
+
+(** non-vacuity.  A four-word bitmap with 35 1-bits: word 0 has 33 of them (so the second
+    checkpoint, the 32nd 1-bit, lies INSIDE word 0 and the masked first word is exercised),
+    word 1 is empty (word skipping), word 2 has one 1-bit in its top byte (the 32/16/8 halving
+    takes every upper half and the [(ww>>5)&0x7f8] table expression), word 3 has bit 0 set.
+    i = 33: found after skipping a word, next 1 in a later word; i = 34: the last 1-bit, the
+    second component is 64*4; i = 31 / 32: around the checkpoint. *)
+Definition c02_ex : list Z := [2^33 - 1; 0; 2^63; 1].
+
+Example C02_index_nonvacuous :
+  words_ok c02_ex /\ zlen (all_ones c02_ex) = 35 /\
+  IndexSelect32 c02_ex = Some [0; 32] /\
+  IndexSelect32R64 c02_ex = Some ([0; 32], [0; 33; 33; 34; 35]).
+Proof.
+  split; [apply words_okb_ok; reflexivity|].
+  vm_compute. intuition congruence.
+Qed.
+
+Example C02_select_nonvacuous :
+  words_ok c02_ex /\ 0 <= 33 < zlen (all_ones c02_ex) /\ 0 <= 34 < zlen (all_ones c02_ex) /\
+  Select32 c02_ex [0; 32] 31 = Some (31, 32) /\
+  Select32 c02_ex [0; 32] 32 = Some (32, 191) /\
+  Select32 c02_ex [0; 32] 33 = Some (191, 192) /\
+  Select32 c02_ex [0; 32] 34 = Some (192, 256) /\
+  Select32R64 c02_ex [0; 32] [0; 33; 33; 34; 35] 33 = Some (191, 192) /\
+  Select32R64 c02_ex [0; 32] [0; 33; 33; 34; 35] 34 = Some (192, 256) /\
+  spec_Select c02_ex 33 = (191, 192) /\ spec_Select c02_ex 34 = (192, 256).
+Proof.
+  split; [apply words_okb_ok; reflexivity|].
+  vm_compute. intuition congruence.
+Qed.
+
+Example C02_rank_select_nonvacuous :
+  rank1z (flat c02_ex) 191 = 33 /\ bitz (flat c02_ex) 191 = true /\
+  Rank64 c02_ex (IndexRank64 c02_ex true) 191 = Some (33, 1) /\
+  select_in_word (2^63) 0 = Some 63 /\
+  nth_error select8Lookup (8 * 128 + 0) = Some 7.
+Proof. vm_compute. intuition congruence. Qed.
+
+(** * widened: the library's select composed with the library's rank (Rank64 / Rank128 of C01)
+
+    [spec_SelectFrom ws p] (Spec/SelectRankSpec.v) = (first 1-bit at position >= p, the 1-bit
+    after it or [64 * len]), by filtering the list of 1-positions. *)
+From Low Require Import Spec.SelectRankSpec Proofs.SelectRank.
+
+(** rank (select i) = i also through Rank128 *)
+Theorem C02_Rank128_of_Select32 : forall ws sidx i a b, words_ok ws ->
+  IndexSelect32 ws = Some sidx -> 0 <= i < zlen (all_ones ws) ->
+  Select32 ws sidx i = Some (a, b) ->
+  Rank128 ws (IndexRank128 ws) a = Some (i, 1).
+Proof. exact Rank128_Select32. Qed.
+Print Assumptions C02_Rank128_of_Select32.
+
+Theorem C02_Rank128_of_Select32R64 : forall ws sidx ridx i a b, words_ok ws ->
+  IndexSelect32R64 ws = Some (sidx, ridx) -> 0 <= i < zlen (all_ones ws) ->
+  Select32R64 ws sidx ridx i = Some (a, b) ->
+  Rank128 ws (IndexRank128 ws) a = Some (i, 1).
+Proof. exact Rank128_Select32R64. Qed.
+Print Assumptions C02_Rank128_of_Select32R64.
+
+(** select (rank p) = the first 1-bit at or after p (and the one after it), for ANY position p
+    that has a 1-bit at or after it — p need not be a 1-bit *)
+Theorem C02_Select32_of_Rank64 : forall ws tr sidx p r b, words_ok ws ->
+  IndexSelect32 ws = Some sidx -> 0 <= p < 64 * zlen ws ->
+  Rank64 ws (IndexRank64 ws tr) p = Some (r, b) -> r < zlen (all_ones ws) ->
+  Select32 ws sidx r = Some (spec_SelectFrom ws p).
+Proof. exact Select32_after_Rank64. Qed.
+Print Assumptions C02_Select32_of_Rank64.
+
+Theorem C02_Select32R64_of_Rank128 : forall ws sidx ridx p r b, words_ok ws ->
+  IndexSelect32R64 ws = Some (sidx, ridx) -> 0 <= p < 64 * zlen ws ->
+  Rank128 ws (IndexRank128 ws) p = Some (r, b) -> r < zlen (all_ones ws) ->
+  Select32R64 ws sidx ridx r = Some (spec_SelectFrom ws p).
+Proof. exact Select32R64_after_Rank128. Qed.
+Print Assumptions C02_Select32R64_of_Rank128.
+
+(** the value [spec_SelectFrom] names is the least 1-position >= p: it is >= p, a 1-bit, every
+    position in between is 0, and it is p itself when p is a 1-bit (select (rank p) = p) *)
+Theorem C02_select_of_rank_least : forall ws p, 0 <= p ->
+  rank1z (flat ws) p < zlen (all_ones ws) ->
+  let a := fst (spec_Select ws (rank1z (flat ws) p)) in
+  p <= a < 64 * zlen ws /\ bitz (flat ws) a = true /\
+  (forall q, p <= q < a -> bitz (flat ws) q = false) /\
+  (bitz (flat ws) p = true -> a = p).
+Proof. exact select_after_rank_least. Qed.
+Print Assumptions C02_select_of_rank_least.
+
+Theorem C02_SelectFrom_is_select_of_rank : forall ws p, 0 <= p <= 64 * zlen ws ->
+  rank1z (flat ws) p < zlen (all_ones ws) ->
+  spec_Select ws (rank1z (flat ws) p) = spec_SelectFrom ws p.
+Proof. exact select_after_rank. Qed.
+Print Assumptions C02_SelectFrom_is_select_of_rank.
+
+(** non-vacuity: p = 64 is a 0-bit with a whole empty word and 63 more 0-bits before the next
+    1-bit (position 191); p = 191 is that 1-bit itself; p = 192 is the last 1-bit *)
+Example C02_select_of_rank_nonvacuous :
+  0 <= 64 < 64 * zlen c02_ex /\
+  Rank64 c02_ex (IndexRank64 c02_ex true) 64 = Some (33, 0) /\ 33 < zlen (all_ones c02_ex) /\
+  Select32 c02_ex [0; 32] 33 = Some (191, 192) /\ spec_SelectFrom c02_ex 64 = (191, 192) /\
+  Rank128 c02_ex (IndexRank128 c02_ex) 191 = Some (33, 1) /\ spec_SelectFrom c02_ex 191 = (191, 192) /\
+  Rank128 c02_ex (IndexRank128 c02_ex) 192 = Some (34, 1) /\
+  Select32R64 c02_ex [0; 32] [0; 33; 33; 34; 35] 34 = Some (192, 256) /\
+  spec_SelectFrom c02_ex 192 = (192, 256).
+Proof. vm_compute. intuition congruence. Qed.
